@@ -49,9 +49,10 @@ theorem C16_not_held_if_not_validator (s : St) (op rec : Nat) (hnr : s.removing 
       | none => simp
       | some pk => simp [hprev pk hp]
 
-/-- One from an operator that is opting out matures together with the opt-out — provided the
-opt-out's finish epoch is stored. -/
-theorem C16_matures_with_optout_partial (s : St) (op rec : Nat) (f : Int) (hr : s.removing op = true)
+/-- One from an operator that is opting out matures together with the opt-out: while the
+opt-out's finish epoch `f` is stored it is held and queued for `f` — whatever the current value
+of EpochsUntilUnbonded is (it may have been lowered since the opt-out). -/
+theorem C16_matures_with_optout (s : St) (op rec : Nat) (f : Int) (hr : s.removing op = true)
     (hfin : s.optOutFinishEpoch op = some f) :
     (undelegationStarted s op rec).1 = .ok ∧
     rec ∈ (undelegationStarted s op rec).2.undelToMature f ∧
@@ -59,31 +60,74 @@ theorem C16_matures_with_optout_partial (s : St) (op rec : Nat) (f : Int) (hr : 
     (undelegationStarted s op rec).2.holds rec = s.holds rec + 1 := by
   simp [undelegationStarted, hr, hfin, upd_apply]
 
-/-- the full statement: every undelegation from an opting-out operator is accepted and matures
-with the opt-out -/
-def C16_full : Prop :=
-  ∀ (ops : List Op) (op rec : Nat), (run (St.init 3 6 1 2) ops).removing op = true →
-    (undelegationStarted (run (St.init 3 6 1 2) ops) op rec).1 = .ok
+/-- In the block whose BeginBlock ended the finish epoch (the hook consumed the finish epoch, the
+operator is pending, EndBlock has not run yet) the unbonding period is over: the undelegation
+is accepted and not held at all — it neither panics nor matures late. -/
+theorem C16_undelegation_in_closing_block (s : St) (op rec : Nat) (hr : s.removing op = true)
+    (hfin : s.optOutFinishEpoch op = none) : undelegationStarted s op rec = (.ok, s) := by
+  simp [undelegationStarted, hr, hfin]
 
-/-- It fails on the unchanged code in two ways: after an opt-out before the key was active
-(F-07a: no finish epoch is ever stored), and — for a regular opt-out — in the very block that
-closes its finish epoch (the hook deleted the finish epoch, EndBlock has not yet completed the
-removal): the delegation hook then computes epoch −1 and panics on the nil store key. -/
-theorem C16_full_fails : ¬ C16_full := by
-  intro h
-  have := h f07aWitness 0 0 (by decide)
-  revert this
-  decide
+/-- the full statement: in every history an undelegation from an opting-out operator is accepted,
+and it either matures with the opt-out (finish epoch stored) or — finish epoch already consumed —
+is not held -/
+def C16_full : Prop :=
+  ∀ (ops : List Op) (op rec : Nat),
+    let s := run (St.init 3 6 1 2) ops
+    s.removing op = true →
+      (undelegationStarted s op rec).1 = .ok ∧
+      (match s.optOutFinishEpoch op with
+       | some f => rec ∈ (undelegationStarted s op rec).2.undelToMature f ∧
+                   (undelegationStarted s op rec).2.undelMaturity rec = some f
+       | none => (undelegationStarted s op rec).2 = s)
+
+theorem C16_full_holds : C16_full := by
+  intro ops op rec s hr
+  cases hf : s.optOutFinishEpoch op with
+  | some f =>
+    have := C16_matures_with_optout s op rec f hr hf
+    exact ⟨this.1, this.2.1, this.2.2.1⟩
+  | none =>
+    have := C16_undelegation_in_closing_block s op rec hr hf
+    simp [this]
+
+/-- the epoch-end hook is the only thing that consumes a finish epoch, and it makes the operator
+pending in the same step: so "removing without finish epoch" is exactly "pending in the closing
+block" for a scheduled opt-out -/
+theorem C16_finish_epoch_consumed_iff_pending (s : St) (e : Int) (op : Nat) (f : Int)
+    (hf : s.optOutFinishEpoch op = some f) :
+    ((epochEndHook s e).optOutFinishEpoch op = none ↔ op ∈ (epochEndHook s e).pendingOptOuts) := by
+  simp only [epochEndHook]
+  by_cases hm : op ∈ s.optOutsToFinish e
+  · simp [hm]
+  · simp [hm, hf]
+
+/-! ## regression: the pre-fix hooks (findings F-07a, F-16a) -/
 
 private def pw16 : Nat → Int := fun _ => 100
-/-- the second way (F-16a): opt in, become active, opt out at epoch 2 (N = 2), epochs 2, 3 end,
+
+/-- F-16a before the fix: opt in, become active, opt out at epoch 2 (N = 2), epochs 2, 3 end,
 epoch 4 ends: in that block, before EndBlock, the operator is still removing and has no finish
-epoch -/
+epoch; the pre-fix hook panics, the repaired one accepts and does not hold -/
 example :
     let s := run (St.init 3 6 1 2) [.register 0, .optIn 0 5 true, .epochEnd 1, .endBlock pw16 5, .optOut 0,
       .epochEnd 2, .endBlock pw16 5, .epochEnd 3, .endBlock pw16 5, .epochEnd 4]
     s.removing 0 = true ∧ s.optOutFinishEpoch 0 = none ∧ s.pendingOptOuts = [0] ∧
-    (undelegationStarted s 0 0).1 = .panic := by decide
+    (undelegationStartedPreFix s 0 0).1 = .panic ∧
+    (undelegationStarted s 0 0).1 = .ok ∧ (undelegationStarted s 0 0).2.holds 0 = 0 := by decide
+
+/-- F-07a before the fix, seen from C16: the pre-fix opt-out leaves a marker without finish epoch
+forever and every later undelegation panics -/
+example :
+    let s := runPreFix (St.init 3 6 1 2) (f07aWitness ++ [.epochEnd 1, .endBlock pw16 5, .epochEnd 2, .endBlock pw16 5,
+      .epochEnd 3, .endBlock pw16 5, .epochEnd 4, .endBlock pw16 5])
+    s.removing 0 = true ∧ (undelegationStartedPreFix s 0 0).1 = .panic := by decide
+
+/-- EpochsUntilUnbonded lowered (2 → 1) between the opt-out and the undelegation: the undelegation
+still matures with the opt-out (slot 4 = opt-out's finish epoch), not at current + new N = 3 -/
+example :
+    let s := run (St.init 3 6 1 2) [.register 0, .optIn 0 5 true, .epochEnd 1, .endBlock pw16 5, .optOut 0,
+      .setUnbonding 1, .undelegate 0 0]
+    s.optOutFinishEpoch 0 = some 4 ∧ s.undelMaturity 0 = some 4 ∧ s.undelToMature 4 = [0] ∧ s.undelToMature 3 = [] := by decide
 
 /-! ## not earlier: an entry stays in its slot until that epoch ends -/
 
@@ -167,14 +211,22 @@ theorem C16_slot_persists (s : St) (o : Op) (e : Int) (ho : ∀ e', o = .epochEn
       · cases s.fwd op with
         | none => exact ⟨fun _ h => h, fun _ h => h⟩
         | some key =>
-          simp only []
-          split
-          · refine ⟨fun _ h => h, fun x h => ?_⟩
+          have hsched : ∀ x, x ∈ s.optOutsToFinish e →
+              x ∈ (setOptOutInformation { s with optedIn := upd s.optedIn op false, removing := upd s.removing op true } op).optOutsToFinish e := by
+            intro x h
             simp only [setOptOutInformation, upd_apply]
             split
-            · rename_i he; subst he; exact List.mem_append_left _ h
+            · rename_i he; rw [he] at h; exact List.mem_append_left _ h
             · exact h
-          · exact ⟨fun _ h => h, fun _ h => h⟩
+          simp only []
+          repeat' split
+          all_goals first
+            | exact ⟨fun _ h => h, hsched⟩
+            | (refine ⟨fun x h => ?_, fun x h => ?_⟩
+               · show x ∈ (completeRemoval _ op).undelToMature e
+                 rw [(completeRemoval_fields _ op).2.2.1]; exact h
+               · show x ∈ (completeRemoval _ op).optOutsToFinish e
+                 rw [(completeRemoval_fields _ op).2.2.2.1]; exact h)
   | jail key b =>
     simp only [step, setJailed]
     repeat' split
